@@ -144,6 +144,18 @@ def gen_struct_case(g, cid, opts=None):
         if positional and any(f.desig == "ghost" for f in sf):
             # keep S-only fields last so that position == index without explicit indices (README precedents)
             sf.sort(key=lambda f: f.desig == "ghost")
+            if opts.get("ghost_not_last") and len(sf) >= 2:
+                # region 'positional_ghost_not_last': an S-only member precedes mapped members. "Same position" is read as the member's own index
+                # (what From and into_existing do, and what repair 6724979 made the post-init Into do): the counterpart keeps a slot at the S-only
+                # member's index, filled by a #[ghosts(i: {..})] entry
+                k = r.randrange(sum(1 for f in sf if f.desig != "ghost"))
+                sf.insert(k, sf.pop())
+                sc.flags.add("positional_ghost_not_last")
+                if g.chance(0.8):
+                    for f in sf:
+                        f.ty = "i32"
+                        if f.desig == "as_type":
+                            f.desig = "same"
             for i, f in enumerate(sf):
                 f.name = f"f{i}" if s_shape == "named" else i
     mapped = [f for f in sf if f.desig != "ghost"]
@@ -176,7 +188,7 @@ def gen_struct_case(g, cid, opts=None):
             f.t = t
             tf[p] = t
     elif positional:
-        permuted = opts.get("permuted", False) and len(mapped) >= 2
+        permuted = opts.get("permuted", False) and len(mapped) >= 2 and "positional_ghost_not_last" not in sc.flags
         order = list(range(len(mapped)))
         if permuted:
             while order == list(range(len(mapped))):
@@ -190,6 +202,9 @@ def gen_struct_case(g, cid, opts=None):
                     if f.desig == "as_type":
                         f.desig = "rename"
         tf = [None] * len(mapped)
+        if "positional_ghost_not_last" in sc.flags:
+            order = [sf.index(f) for f in mapped]
+            tf = [None] * (max(order) + 1)
         for f, p in zip(mapped, order):
             t = TFld(p, f.ty)
             t.src = f
@@ -207,6 +222,12 @@ def gen_struct_case(g, cid, opts=None):
         if f.desig == "as_type":
             f.as_type = True
             f.t.ty = r.choice([x for x in NUM if x != f.ty])
+    # counterpart slots at the index of an S-only member (region positional_ghost_not_last): supplied by a struct-level ghosts entry
+    for i, t in enumerate(tf):
+        if t is None:
+            k = g.mark()
+            tf[i] = TFld(i, sf[i].ty)
+            tf[i].ghost = dict(owned=k, ref=k, split=False)
     # T-only fields
     if t_kind != "unit" and t_kind != "tuple_brace":
         n_only = r.choice([0, 0, 1, 2]) if sf else r.randint(1, 3)
